@@ -178,3 +178,58 @@ Fixpoint wf_times (M now : N) (h : list sevent) : bool :=
   | [] => true
   | ev :: h' => (now <=? se_t1 ev) && (se_t1 ev <=? se_t2 ev) && (se_t2 ev + M <? pow2 32) && wf_times M (se_t2 ev) h'
   end.
+
+(* ---- restart (C18) -------------------------------------------------------------
+   Closing and reopening the store keeps the lease rows -- SQLite durability: every
+   INSERT is committed before the reply is built; this is the TRUSTED assumption, checked
+   on the real store by the Restart/Kill events of the harness -- and loses the in-memory
+   set of server identifiers. *)
+Definition restart (st : sstate) : sstate := (fst st, []).
+
+(* what an observer sees of a run: the frames, and the rows at the end *)
+Definition view (r : sstate * list (list N)) : db * list (list N) := (fst (fst r), snd r).
+
+Definition run_restart (cfg : scfg) (st : sstate) (h1 h2 : list sevent) : option (sstate * list (list N)) :=
+  match server_run cfg st h1 with
+  | Some (st1, fs1) =>
+    match server_run cfg (restart st1) h2 with
+    | Some (st2, fs2) => Some (st2, fs1 ++ fs2)
+    | None => None
+    end
+  | None => None
+  end.
+
+(* single-homed use: a REQUEST names no server, or the address of the interface it arrives on *)
+Definition names_own_address (ev : sevent) : Prop :=
+  forall m, decode (se_bytes ev) = Ok m -> msgtype m = Some 3 ->
+            serverid m = None \/ serverid m = Some (e_serverip (se_env ev)).
+
+(* a datagram may be KILLED: the process dies between the INSERT and the send -- the row (if
+   any) is written, no frame leaves -- and the server is started again *)
+Fixpoint server_run_k (cfg : scfg) (st : sstate) (h : list (sevent * bool)) : option (sstate * list (list N)) :=
+  match h with
+  | [] => Some (st, [])
+  | (ev, killed) :: h' =>
+    match server_step cfg st (se_t1 ev) (se_t2 ev) (se_env ev) (se_bytes ev) (se_ans ev) with
+    | Ok (st', fo) =>
+      match server_run_k cfg (if killed then restart st' else st') h' with
+      | Some (st'', fs) => Some (st'', match fo with Some f => if killed then fs else f :: fs | None => fs end)
+      | None => None
+      end
+    | Err _ => None
+    | Panic _ => server_run_k cfg (if killed then restart st else st) h'
+    end
+  end.
+
+Fixpoint pool_history_k (cfg : scfg) (st : sstate) (h : list (sevent * bool)) : list (event * bool) :=
+  match h with
+  | [] => []
+  | (ev, killed) :: h' =>
+    match server_step cfg st (se_t1 ev) (se_t2 ev) (se_env ev) (se_bytes ev) (se_ans ev) with
+    | Ok (st', _) =>
+      (match pool_event cfg st ev with Some (e, lost) => [(e, lost || killed)] | None => [] end)
+      ++ pool_history_k cfg (if killed then restart st' else st') h'
+    | Err _ => []
+    | Panic _ => pool_history_k cfg (if killed then restart st else st) h'
+    end
+  end.
